@@ -102,7 +102,7 @@ def print_assumptions(pid):
 
 
 def coqchk(pid, timeout=1500):
-    cmd = f"coqchk -silent -o -Q theories PrefVerif PrefVerif.Properties.{pid} 2>&1 | tail -40"
+    cmd = f"coqchk -o -Q theories PrefVerif PrefVerif.Properties.{pid} 2>&1 | tail -40"
     try:
         p = subprocess.run(cmd, cwd=COQ, shell=True, stdout=subprocess.PIPE, text=True, timeout=timeout)
         return p.stdout
